@@ -126,6 +126,11 @@ func (w *watches) updatePath(path string, f func(*watch) (*watch, error)) error 
 
 		if upd.wd != wd {
 			delete(w.wd, wd)
+			// The file is already watched under another path: this path no
+			// longer has a watch of its own.
+			if ok && upd.path != path {
+				delete(w.path, path)
+			}
 		}
 	}
 
@@ -264,6 +269,12 @@ func (w *inotify) register(path string, flags uint32, recurse bool) error {
 		wd, err := unix.InotifyAddWatch(w.fd, path, flags)
 		if wd == -1 {
 			return nil, err
+		}
+
+		// The path now refers to another file than the one we were watching:
+		// release the old watch (which may already be gone, so ignore errors).
+		if existing != nil && existing.wd != uint32(wd) {
+			unix.InotifyRmWatch(w.fd, existing.wd)
 		}
 
 		if e, ok := w.watches.wd[uint32(wd)]; ok {
